@@ -2,7 +2,7 @@
 #![allow(dead_code)]
 use super::*;
 
-const N: usize = 64; // storage bytes modelled (buffer length symbolic 0..=N)
+const N: usize = 24; // storage for the whole-name harnesses
 
 fn is_sur(x: u16) -> bool {
     (0xD800..=0xDFFF).contains(&x)
@@ -89,16 +89,17 @@ fn ref_push(frag: &[u16; 13], carried: Option<u16>) -> ([u8; 56], usize, Option<
     (out, len, carry)
 }
 
-/// One push from an arbitrary buffer state (any length 0..=64, any free
-/// position, any carried unit a previous push could have left, any overflow
-/// flag) with a fragment whose units are symbolic where `mask` says so and
-/// drawn from {NUL-free fixed BMP unit} elsewhere.
-fn one_push(mask: u16, fixed: u16) {
-    let mut storage: [u8; N] = kani::any();
+/// One push from an arbitrary buffer state (buffer length 0..=NB symbolic, any
+/// free position, any carried unit a previous push could have left, any
+/// overflow flag, arbitrary stored bytes) with a fragment whose units are
+/// symbolic where `mask` says so and `fixed` elsewhere.  `content` selects the
+/// byte-for-byte comparison with the reference encoding.
+fn one_push<const NB: usize>(mask: u16, fixed: u16, content: bool) {
+    let mut storage: [u8; NB] = kani::any();
     let before = storage;
     let len: usize = kani::any();
     let free: usize = kani::any();
-    kani::assume(len <= N && free <= len);
+    kani::assume(len <= NB && free <= len);
     let overflow: bool = kani::any();
     let carried: Option<u16> = if kani::any() {
         let c: u16 = kani::any();
@@ -126,39 +127,50 @@ fn one_push(mask: u16, fixed: u16) {
     assert!(new_carry == ecarry, "lfn.push: carried surrogate != fragment's leading unpaired unit");
     // bytes of earlier pushes are untouched
     let p: usize = kani::any();
-    kani::assume(p >= free && p < N);
+    kani::assume(p >= free && p < NB);
     assert!(storage[p] == before[p], "lfn.push: bytes of previously pushed fragments changed");
     if elen <= free {
         assert!(new_free == free - elen, "lfn.push: consumed space != length of the UTF-8 encoding");
-        let q: usize = kani::any();
-        kani::assume(q < elen);
-        assert!(storage[new_free + q] == exp[q], "lfn.push: written bytes != UTF-8 of the lossy decoding of fragment ++ carried unit");
+        if content {
+            let q: usize = kani::any();
+            kani::assume(q < elen);
+            assert!(storage[new_free + q] == exp[q], "lfn.push: written bytes != UTF-8 of the lossy decoding of fragment ++ carried unit");
+        }
     }
     kani::cover!(elen == 0 && ecarry.is_some());
     kani::cover!(elen > free && !overflow);
-    kani::cover!(elen <= free && elen >= 13 && carried.is_some() && ecarry.is_none());
+    kani::cover!(elen <= free && carried.is_some() && ecarry.is_none() && elen >= 4);
 }
 
-/// quick shape: units 0..=3 and 12 fully symbolic (carry logic looks at the
-/// first unit and at what follows the last), units 4..=11 fixed BMP.
+/// Short fragment (3 symbolic units then NUL) + symbolic carry, 16-byte buffer:
+/// every pairing / carry / replacement case, full content comparison.
+#[kani::proof]
+#[kani::unwind(16)]
+fn c17_lfn_push_short() {
+    one_push::<16>(0b0_0000_0000_0111, 0, true);
+}
+
+/// Full 13-unit fragment, first and last unit symbolic (the carry logic looks at
+/// the first unit and at what follows the last one), the rest ASCII; this is
+/// the shape that needs 14 decoded characters when a carried surrogate does not pair.
+#[kani::proof]
+#[kani::unwind(16)]
+fn c17_lfn_push_full_capacity() {
+    one_push::<32>(0b1_0000_0000_0001, 0x0041, true);
+}
+
+/// units 0..=3 and 12 symbolic, 2-byte BMP filler
 #[kani::proof]
 #[kani::unwind(16)]
 fn c17_lfn_push_edges() {
-    one_push(0b1_0000_0000_1111, 0x00E9);
+    one_push::<48>(0b1_0000_0000_1111, 0x00E9, true);
 }
 
-/// all 13 units symbolic
+/// all 13 units symbolic: totality, space accounting, flags (no content compare)
 #[kani::proof]
 #[kani::unwind(16)]
 fn c17_lfn_push_full() {
-    one_push(0x1FFF, 0);
-}
-
-/// units 0..=6 symbolic (NUL terminator positions, short fragments)
-#[kani::proof]
-#[kani::unwind(16)]
-fn c17_lfn_push_head() {
-    one_push(0b0_0000_0111_1111, 0x0041);
+    one_push::<64>(0x1FFF, 0, false);
 }
 
 /// Fresh buffer, one fragment = a whole one-fragment name: as_str is the
